@@ -85,6 +85,11 @@ impl<P: Protocol> GenericCloud<MockDevice, P, MockSocket, MockTimeSource> {
     pub fn v_replace_crypto(&mut self, c: Crypto) {
         self.crypto = c;
     }
+    /// keep the key pair and trusted keys that Crypto::new derived from the configuration, prescribe only the
+    /// cipher list and speeds (the real speed measurement is timing dependent)
+    pub fn v_set_algorithms(&mut self, speeds: &[(u8, f32)], allow_unencrypted: bool) {
+        crate::crypto::verif::set_algorithms(&mut self.crypto, speeds, allow_unencrypted);
+    }
     pub fn v_add_reconnect(&mut self, addrs: Vec<SocketAddr>) {
         let now = MockTimeSource::now();
         self.reconnect_peers.push(ReconnectEntry {
